@@ -270,7 +270,7 @@ mutual
     | 0, _ + 1, _ => .illformed
     | _, _ + 1, [] => .illformed
     | fuel + 1, n + 1, m :: s =>
-      if isNoop m then countedItems fuel (n + 1) s
+      if isNoop m then .unjudged               -- a no-op among counted items: the draft does not say whether it takes one of the counted slots (jsoncons counts it)
       else match valueOf fuel m s with
         | .ok x s1 => (match countedItems fuel n s1 with | .ok xs r => .ok (x :: xs) r | e => e)
         | .illformed => .illformed
